@@ -5,6 +5,7 @@ package main
 // the memory model and symbolic leaves are this engine's own.
 
 import (
+	"time"
 	"fmt"
 	"go/constant"
 	"go/token"
@@ -65,6 +66,8 @@ type Exec struct {
 	curFrame   *frame
 
 	nativesSeen map[string]bool
+	fallbackTried, fallbackDecided int
+	fallbackTime time.Duration
 	bounds      map[string]int
 }
 
